@@ -790,6 +790,13 @@ func TestVerifC01(t *testing.T) {
 			v.Oracle(false, "harness:forged-qc-script-genuine-branch-does-not-commit:"+cons, fmt.Sprintf("replica 2 committed %v", res4.commits["r2n0"]), nil)
 		}
 		emitHist(cons, 4, res4.hist.spec, res4, "script-forged-qc-after-cached-single-signature")
+		for _, scheme := range []string{"bls12", "ecdsa", "eddsa"} {
+			res9, err := c01ForeignSigners(cons, scheme, 7)
+			if err != nil {
+				t.Fatalf("world: %v", err)
+			}
+			emitHist(cons, 4, res9.hist.spec, res9, "script-certificates-naming-identities-outside-the-configuration-"+scheme)
+		}
 		res5, err := c01RogueKeyBLS(cons, 7)
 		if err != nil {
 			t.Fatalf("world: %v", err)
@@ -2638,6 +2645,125 @@ func c01RogueKeyBLS(cons string, seed int64) (*c01Result, error) {
 	forged := func(b *hotstuff.Block) (hotstuff.QuorumCert, bool) {
 		sg, err := forge(b.ToBytes(), []hotstuff.ID{1, 2, 4})
 		if err != nil {
+			return hotstuff.QuorumCert{}, false
+		}
+		return hotstuff.NewQuorumCert(sg, b.View(), b.Hash()), true
+	}
+	// two private four-block chains justified by forged certificates only: one for replica 2, one for replica 3
+	for _, victim := range []*wNode{h2, h3} {
+		parent, q := gen, genQC
+		for v := 1; v <= 5; v++ {
+			nb := mk(hotstuff.View(v), parent.Hash(), q)
+			send(nb, victim)
+			fq, okf := forged(nb)
+			if !okf {
+				break
+			}
+			parent, q = nb, fq
+		}
+	}
+	return c01Finish(h, live, 0), nil
+}
+
+// c01ForeignSigners: a certificate's participants must all be configured replicas with a verified signature.
+// The Byzantine leader shows replicas 2 and 3 private chains whose certificates carry its own genuine signature
+// and name two identities outside the configuration; a verifier that skips participants it has no key for
+// still counts them, certifies both chains, and the two replicas commit different blocks at position 0.
+func c01ForeignSigners(cons, scheme string, seed int64) (*c01Result, error) {
+	spec := wSpec{consensus: cons, n: 4, byz: []hotstuff.ID{4}, seed: seed, crypto: scheme}
+	for i := 0; i < 20; i++ {
+		spec.leaders = append(spec.leaders, 4)
+	}
+	w, err := newWorld(spec)
+	if err != nil {
+		return nil, err
+	}
+	h := newC01Hist(w, spec)
+	B := w.nodes[NodeID{ReplicaID: 4}]
+	h1, h2, h3 := w.nodes[NodeID{ReplicaID: 1}], w.nodes[NodeID{ReplicaID: 2}], w.nodes[NodeID{ReplicaID: 3}]
+	live := []*wNode{h1, h2, h3}
+	for _, id := range w.order {
+		w.partition[id] = 0
+	}
+	flush := func() {
+		for guard := 0; len(w.pending) > 0 && guard < 10000; guard++ {
+			m := w.pending[0]
+			w.pending = w.pending[1:]
+			to := w.nodes[m.to]
+			if to.byz {
+				w.byzHandle(to, m.payload)
+				h.observe(nil)
+				continue
+			}
+			if p, ok := m.payload.(hotstuff.ProposeMsg); ok {
+				w.regProposal(&p)
+			}
+			to.eventLoop.AddEvent(m.payload)
+			w.drain(to)
+			h.observe(to)
+		}
+	}
+	k := 0
+	mk := func(view hotstuff.View, parent hotstuff.Hash, qc hotstuff.QuorumCert) *hotstuff.Block {
+		k++
+		b := hotstuff.NewBlock(parent, qc, &clientpb.Batch{Commands: []*clientpb.Command{{ClientID: 99, SequenceNumber: uint64(k), Data: []byte("byz")}}}, view, 4)
+		w.regBlock(b)
+		B.blockchain.Store(b)
+		return b
+	}
+	send := func(b *hotstuff.Block, to ...*wNode) {
+		for _, nd := range to {
+			w.byzSendTo(B, nd, hotstuff.ProposeMsg{ID: 4, Block: b})
+		}
+		flush()
+	}
+	newview := func(qc hotstuff.QuorumCert, to ...*wNode) {
+		for _, nd := range to {
+			w.byzSendTo(B, nd, hotstuff.NewViewMsg{ID: 4, SyncInfo: hotstuff.NewSyncInfoWith(qc), FromNetwork: true})
+		}
+		flush()
+	}
+	certify := func(b *hotstuff.Block) (hotstuff.QuorumCert, bool) {
+		if pc, err := B.auth.CreatePartialCert(b); err == nil {
+			B.votesSeen[b.Hash()] = append(B.votesSeen[b.Hash()], pc)
+		}
+		w.byzAssemble(B)
+		h.observe(nil)
+		for _, q := range w.qcs {
+			if q.BlockHash() == b.Hash() {
+				return q, true
+			}
+		}
+		return hotstuff.QuorumCert{}, false
+	}
+	gen := hotstuff.GetGenesis()
+	genQC := B.viewStates.HighQC()
+	_ = newview
+	_ = certify
+	// certificates carrying ONE genuine signature (the Byzantine leader's own) and claiming two further signers that
+	// are not replicas at all (ids 9 and 10): three claimed participants reach the quorum count of 3
+	forged := func(b *hotstuff.Block) (hotstuff.QuorumCert, bool) {
+		pc, err := B.auth.CreatePartialCert(b)
+		if err != nil {
+			return hotstuff.QuorumCert{}, false
+		}
+		var sg hotstuff.QuorumSignature
+		switch own := pc.Signature().(type) {
+		case *crypto.BLS12AggregateSignature:
+			var bf crypto.Bitfield
+			bf.Add(4)
+			bf.Add(9)
+			bf.Add(10)
+			r, err := crypto.RestoreBLS12AggregateSignature(own.ToBytes(), bf)
+			if err != nil {
+				return hotstuff.QuorumCert{}, false
+			}
+			sg = r
+		case crypto.Multi[*crypto.ECDSASignature]:
+			sg = crypto.NewMulti(own[0], crypto.RestoreECDSASignature(own[0].ToBytes(), 9), crypto.RestoreECDSASignature(own[0].ToBytes(), 10))
+		case crypto.Multi[*crypto.EDDSASignature]:
+			sg = crypto.NewMulti(own[0], crypto.RestoreEDDSASignature(own[0].ToBytes(), 9), crypto.RestoreEDDSASignature(own[0].ToBytes(), 10))
+		default:
 			return hotstuff.QuorumCert{}, false
 		}
 		return hotstuff.NewQuorumCert(sg, b.View(), b.Hash()), true
